@@ -1,8 +1,9 @@
 ---------------------------- MODULE WritersTrace ----------------------------
 (***************************************************************************)
 (* C14 on recorded executions of the real builder with real FileWriter     *)
-(* objects (scratch files, BytesIO, StringIO) and custom BaseWriter        *)
-(* subclasses.  After every action the recorder reads back what each       *)
+(* objects (scratch files, BytesIO, StringIO, files the user opened), the  *)
+(* bundled ConsoleWriter and LogWriter, and custom BaseWriter subclasses.   *)
+(*  After every action the recorder reads back what each       *)
 (* output holds (files through a second handle, i.e. what is durably       *)
 (* there).  The registry and the expected content are kept by the          *)
 (* specification itself.                                                    *)
@@ -26,6 +27,7 @@ NextExp(T, e) ==
   IF e.act = "write"
     THEN [w \in 1..NW(T) |-> IF w \notin RangeOf(reg) THEN exp[w]
                               ELSE IF Kind(T, w) = "path" /\ ~open[w] THEN e.data      \* ReopenTruncates
+                              ELSE IF Kind(T, w) = "log" THEN exp[w] \o LogForm(e.data)
                               ELSE exp[w] \o e.data]
     ELSE exp
 NextOpen(T, e) ==
